@@ -150,7 +150,7 @@ pub fn board_color(b: &Board, c: Color) -> Bitboard { b.color(c) }
 pub fn board_piece(b: &Board, c: Cell) -> Bitboard { b.piece(c) }
 pub fn board_piece2(b: &Board, c: Color, p: Piece) -> Bitboard { b.piece2(c, p) }
 pub fn board_hash(b: &Board) -> u64 { b.zobrist_hash() }
-pub fn board_eq(a: &Board, b: &Board) -> bool { a == b }
+pub fn board_eq(a: &Board, b: &Board) -> bool { *a == *b }
 pub fn board_raw(a: &Board) -> &RawBoard { a.raw() }
 pub fn raw_get(b: &RawBoard, c: Coord) -> Cell { b.get(c) }
 pub fn raw_put(b: &mut RawBoard, c: Coord, x: Cell) { b.put(c, x) }
@@ -173,7 +173,7 @@ pub fn chain_set_auto_outcome(c: &mut MoveChain, f: OutcomeFilter) -> Option<Out
 pub fn chain_set_outcome(c: &mut MoveChain, o: Outcome) { c.set_outcome(o) }
 pub fn chain_reset_outcome(c: &mut MoveChain, o: Option<Outcome>) { c.reset_outcome(o) }
 pub fn chain_clear_outcome(c: &mut MoveChain) { c.clear_outcome() }
-pub fn chain_eq(a: &MoveChain, b: &MoveChain) -> bool { a == b }
+pub fn chain_eq(a: &MoveChain, b: &MoveChain) -> bool { *a == *b }
 pub fn chain_get(a: &MoveChain, i: usize) -> Move { a.get(i) }
 pub fn chain_len(a: &MoveChain) -> usize { a.len() }
 pub fn chain_last(a: &MoveChain) -> &Board { a.last() }
